@@ -35,6 +35,9 @@ the fragment, at the level of text, both syntaxes; uses `Lemmas/ParseErase.lean`
 Which links of the chain tree → printer → text → lexer → tokens → parser → tree are theorems: on `E2` with
 lexer-conformant leaves ALL of them (unbounded trees); outside `E2` (recursive / imperative constructions, `{x∈X | φ}`
 without `D`, function definitions, global declarations) only kernel-evaluated instances and the correspondence run.
+Part 3 extends all links to `E3` (`E2` + recursive / imperative constructions: `parse_print_text_fragment3`) and to the top-level
+forms over `E3` — function definitions `[x∈S, …] body`, global declarations `X1 :== body`, `S1 ::= body`, `F1 :== [x∈S] body`,
+`X1 :==` (`parse_print_text_top_fragment3`); still outside: `{x∈X | φ}` without `D` as input, bare `F1` / `P1` as identifiers.
 -/
 namespace CCVerif.C05
 open CCVerif.Syntax CCVerif.Generated CCVerif.Lexer CCVerif.Parser CCVerif.Printer CCVerif.Wf
@@ -760,14 +763,14 @@ example : (print .math sampleE3.ast).map (fun u => String.ofList (u.map Char.ofN
     some "I{(x, y) | x:∈X1; (y, z):=R{(a, b):=(x, 0) | pr1(a)∈X2 | (a∪x, b+1)}; y≠∅; z:=R{w:=S1 | w∪X1}}∪X2" := by
   decide +kernel
 
-/-! ### top-level forms over `E3` (parser link only) -/
+/-! ### top-level forms over `E3` (parser link) -/
 
 /-- **parse_print_top_fragment3** (TOKEN level only): function definitions `[x∈S, y∈T] body` and global declarations
 `X1 :== body`, `S1 ::= body`, `F1 :== [x∈S] body`, `X1 :==` whose bodies and domains are phrases of `E3`
 (`PP3.Top`, `Lemmas/ParsePrint3Decl.lean`): the parser model returns the tree from the printed token sequence
 (`arguments`, `no_declaration`, `expression`, `FinalizeCstEmpty`, `SemanticCheck`, `CreateSyntaxTree`).
-This is the parser link alone: that the printed TEXT of these forms lexes to these tokens is NOT proved here
-(correspondence run and kernel-evaluated instances only), so `parse_print_text_fragment3` does not cover them. -/
+This is the parser link alone; the printer and lexer links for these forms are `lex_print_top_fragment3`, the whole chain at
+the level of TEXT is `parse_print_text_top_fragment3` (both below). -/
 theorem parse_print_top_fragment3 (t : PP3.Top) (hw : t.wf = true) : parseToks (t.toks ++ [tk .END]) = some t.ast :=
   CCVerif.PP3.parseToks_top t hw
 
